@@ -348,8 +348,10 @@ class _DivideTransformer(ast.NodeTransformer):
 
     def visit_BinOp(self, node: ast.BinOp) -> ast.AST:
         """Transform division to a `_safe_divide` call."""
+        # Visit the operands first: they may contain divisions as well.
+        node = self.generic_visit(node)
         if not isinstance(node.op, ast.Div):
-            return self.generic_visit(node)
+            return node
 
         return ast.Call(
             func=ast.Name(id="_safe_divide", ctx=ast.Load()),
